@@ -54,8 +54,8 @@ UNITS["C02"] = [
          assumptions=["contract of rangemap::RangeInclusiveSet (insert/remove/get/overlapping/into_iter; lib/rangeset.vrs) and of HashSet<RangeInclusive> (set of (start,end) pairs)",
                       "versions are SQLite INTEGERs in 1..2^63-1"]),
     dict(kind="verus", name="c02_booked", template="specs/c02_booked.vrs",
-         under_contract=["BookedVersions::contains_version", "BookedVersions::last", "BookedVersions::snapshot", "BookedVersions::commit_snapshot", "BookedVersions::insert_partial"],
-         vacuity=["contains_version", "snapshot", "commit_snapshot", "insert_partial"],
+         under_contract=["BookedVersions::contains_version", "BookedVersions::contains", "BookedVersions::contains_all", "BookedVersions::last", "BookedVersions::snapshot", "BookedVersions::commit_snapshot", "BookedVersions::insert_partial"],
+         vacuity=["contains_version", "contains", "contains_all", "snapshot", "commit_snapshot", "insert_partial"],
          assumptions=["contracts of RangeInclusiveSet::{iter,extend}, Iterator::any, BTreeMap::entry/Vacant::insert/Occupied::get_mut, core::cmp::max on Option<newtype>, core::mem::take (lib/*.vrs)"]),
     dict(kind="verus", name="c02_partial", template="specs/c02_partial.vrs",
          under_contract=["PartialVersion::is_complete", "PartialVersion::full_range"],
@@ -140,6 +140,8 @@ UNITS["C16"] = [
 ]
 
 UNITS["C05"] = [
+    dict(kind="structural", name="c05_snapshot", check="single_snapshot", file="crates/klukai-agent/src/api/peer/mod.rs", fn="handle_need",
+         trusted=["rusqlite Connection::transaction opens a DEFERRED transaction whose first read pins one WAL snapshot until it is dropped (SQLite)"]),
     dict(kind="depcheck", name="depcheck_c05"),
     dict(kind="structural", name="c05_sql_scoping", check="sql_actor_scoping", file="crates/klukai-agent/src/api/peer/mod.rs",
          trusted=["heuristic SQL reading (see c03_sql_scoping)"]),
@@ -176,10 +178,15 @@ UNITS["C03"] = [
 ]
 
 UNITS["C10"] = [
+    dict(kind="structural", name="c10_offer_loops", check="offer_loops", file="crates/klukai-agent/src/agent/util.rs", fn="process_multiple_changes",
+         trusted=["syntactic reading of the loop nest (vx/structural.py offer_loops); `?`/`return Err` exits roll the transaction back and surface an error"]),
+    dict(kind="verus", name="c10_contains", template="specs/c02_booked.vrs",
+         under_contract=["BookedVersions::contains", "BookedVersions::contains_all", "BookedVersions::contains_version"], vacuity=["contains", "contains_all"],
+         assumptions=["same template as unit c02_booked; `RangeInclusive::all(closure)` / `Option::map(closure).unwrap_or(d)` through lib/rangeall.vrs stand-ins and the Option-combinator desugaring"]),
     dict(kind="depcheck", name="depcheck_c10"),
     dict(kind="verus", name="c10_ingest", template="specs/c10_ingest.vrs",
-         under_contract=["frag_suppress", "frag_drop_oldest", "frag_cache_insert", "frag_cleared_decision"],
-         vacuity=["frag_suppress", "frag_drop_oldest", "frag_cache_insert", "frag_cleared_decision"],
+         under_contract=["frag_suppress", "frag_drop_oldest", "frag_cache_insert", "frag_cleared_decision", "frag_known_skip_in_tx"],
+         vacuity=["frag_suppress", "frag_drop_oldest", "frag_cache_insert", "frag_cleared_decision", "frag_known_skip_in_tx"],
          assumptions=["fragments of the tokio::select! ingest loop wrapped as functions; let-chains desugared; `continue` -> return Exit::Continue",
                       "IndexMap / VecDeque / Iterator::all replaced by contract stand-ins that keep the real closures"]),
 ]
